@@ -274,4 +274,48 @@ for d, observer, other_run in [(d_, o_, r_) for d_ in range(0, 4 if THOROUGH els
                            f"error={o.get('err')!r} warnings={o.get('w')}")
     elif any(n in o["vis"] for n in ("from_thread_run", "_send_message_to_trio", "run_system", "unprotected_afn")):
         leg.violation(key, f"from_thread plumbing not hidden: {o['vis']}")
+# the FIRST extraction of a process decides when the Trio glue is installed: made from inside trio.run() but outside any task
+# (an Instrument hook - the situation of a signal-driven stack dump), the task tree extracted then and later must still be Trio's
+import subprocess
+FIRST_FROM_HOOK = r"""
+import stackscope, warnings, sys
+import trio
+seen = {}
+class Dump(trio.abc.Instrument):
+    def before_io_wait(self, timeout):
+        if "first" not in seen and MAIN:
+            with warnings.catch_warnings(record=True) as w:
+                warnings.simplefilter("always")
+                seen["first"] = stackscope.extract(MAIN[0], recurse_child_tasks=True)
+            seen["w1"] = [str(x.message)[:100] for x in w]
+MAIN = []
+async def leaf(): await trio.sleep_forever()
+def nurseries(st):
+    return [c for f in st.frames for c in f.contexts if type(c.obj).__name__ == "Nursery"]
+async def main():
+    MAIN.append(trio.lowlevel.current_task())
+    async with trio.open_nursery() as n:
+        n.start_soon(leaf); n.start_soon(leaf)
+        await trio.sleep(0.05)                      # the run loop goes idle: the instrument fires
+        with warnings.catch_warnings(record=True) as w:
+            warnings.simplefilter("always")
+            seen["second"] = stackscope.extract(MAIN[0], recurse_child_tasks=True)
+        seen["w2"] = [str(x.message)[:100] for x in w]
+        n.cancel_scope.cancel()
+trio.run(main, instruments=[Dump()])
+bad = []
+for tag in ("first", "second"):
+    st = seen.get(tag)
+    ns = nurseries(st) if st is not None else []
+    if st is None or st.error is not None or len(ns) != 1 or len(ns[0].children) != 2 or not all(ch.frames for ch in ns[0].children):
+        bad.append((tag, None if st is None else (repr(st.error), [type(c.obj).__name__ for f in st.frames for c in f.contexts], [len(x.children) for x in ns])))
+if seen.get("w1") or seen.get("w2"): bad.append(("warnings", seen.get("w1"), seen.get("w2")))
+print("RESULT", bad)
+sys.exit(1 if bad else 0)
+"""
+leg.case("first-extraction-from-an-instrument-hook", True)
+pr = subprocess.run([sys.executable, "-c", FIRST_FROM_HOOK], capture_output=True, text=True, timeout=120, env=dict(os.environ))
+if pr.returncode != 0:
+    leg.violation("first-extraction-from-an-instrument-hook", "fresh process whose first extraction is made from an Instrument hook (inside trio.run, "
+                  "outside any task): " + (pr.stdout.strip().splitlines() or [pr.stderr.strip()[-300:]])[-1][:500])
 leg.finish(exhaustive=True)
